@@ -3,6 +3,7 @@ CONSTANTS
   MaxOps = 2
   Groups = {"list", "listns", "tree", "arr", "mat", "ds"}
   Big = FALSE
+  Focus = ""
   Wide = FALSE
   ShipDsAdd = TRUE
   ShipMatPartial = FALSE
